@@ -554,6 +554,9 @@ fn tag_pool(name: &str) -> Tag {
         "kv" => Tag { k: Some("k".into()), v: "v".into() },
         "bare" => Tag { k: None, v: "b".into() },
         "kv2" => Tag { k: Some("e".into()), v: "w".into() },
+        "dkv_b" => Tag { k: Some("dk".into()), v: "d2".into() },
+        "kv_b" => Tag { k: Some("k".into()), v: "v2".into() },
+        "dkv_c" => Tag { k: Some("dk".into()), v: "v3".into() },
         other => Tag { k: None, v: other.to_string() },
     }
 }
@@ -610,7 +613,7 @@ pub fn shape_to_call(s: &Value) -> (Cfg, Call) {
         form: s["form"].as_str().unwrap().to_string(),
         key: s["key"].as_str().unwrap().to_string(),
         val,
-        rate: if opts.iter().any(|o| o == "rate") { Some(0.5) } else { None },
+        rate: if opts.iter().any(|o| o == "rate") { Some(if opts.iter().any(|o| o == "ts") { 1.0 } else { 0.5 }) } else { None },
         tags: strs(&s["ctags"]).iter().map(|n| tag_pool(n)).collect(),
         cid: if opts.iter().any(|o| o == "cid") { Some("oc".into()) } else { None },
         ts: if opts.iter().any(|o| o == "ts") { Some(7) } else { None },
@@ -641,8 +644,9 @@ pub fn replay(a: &Args) {
         let sink = RecSink(Arc::new(Mutex::new(SinkState::default())));
         let ehlog = Arc::new(Mutex::new(vec![]));
         // sink outcome chosen by the shape: accept / refuse
-        if s["sink"].as_str() == Some("refuse") {
-            sink.0.lock().unwrap().script.push_back(Some(io::ErrorKind::ConnectionRefused));
+        if let Some(k) = s["sink"].as_str().and_then(|x| x.strip_prefix("refuse-")) {
+            let kind = ALL_KINDS.iter().find(|(n, _)| *n == k).map(|(_, v)| *v).expect("known error kind");
+            sink.0.lock().unwrap().script.push_back(Some(kind));
         }
         let client = build_client(&cfg, sink.clone(), ehlog.clone());
         t.ev(cfg_event(&cfg, json!({"shape": n})));
@@ -675,6 +679,30 @@ pub fn replay(a: &Args) {
     summary(json!({"engine":"client-replay","shapes":n,"macro_shapes":macro_shapes.len(),"events":t.count(),
         "model_divergences":ndiv,"first_divergences":divs,"sample":sample}));
 }
+
+/// io::ErrorKinds a sink may refuse with (C03: "refuse with any io::ErrorKind")
+pub const ALL_KINDS: [(&str, io::ErrorKind); 20] = [
+    ("NotFound", io::ErrorKind::NotFound),
+    ("PermissionDenied", io::ErrorKind::PermissionDenied),
+    ("ConnectionRefused", io::ErrorKind::ConnectionRefused),
+    ("ConnectionReset", io::ErrorKind::ConnectionReset),
+    ("ConnectionAborted", io::ErrorKind::ConnectionAborted),
+    ("NotConnected", io::ErrorKind::NotConnected),
+    ("AddrInUse", io::ErrorKind::AddrInUse),
+    ("AddrNotAvailable", io::ErrorKind::AddrNotAvailable),
+    ("BrokenPipe", io::ErrorKind::BrokenPipe),
+    ("AlreadyExists", io::ErrorKind::AlreadyExists),
+    ("WouldBlock", io::ErrorKind::WouldBlock),
+    ("InvalidInput", io::ErrorKind::InvalidInput),
+    ("InvalidData", io::ErrorKind::InvalidData),
+    ("TimedOut", io::ErrorKind::TimedOut),
+    ("WriteZero", io::ErrorKind::WriteZero),
+    ("Interrupted", io::ErrorKind::Interrupted),
+    ("Unsupported", io::ErrorKind::Unsupported),
+    ("UnexpectedEof", io::ErrorKind::UnexpectedEof),
+    ("OutOfMemory", io::ErrorKind::OutOfMemory),
+    ("Other", io::ErrorKind::Other),
+];
 
 // ------------------------------------------------------------------ direction B: random calls
 const HOSTILE: [&str; 14] = ["", "a", "é", "日本", ":", "|", "#", ",", "@", "\n", ".", "a:b|c#d,e@f", "x.y..", "\u{1F600}"];
@@ -807,7 +835,20 @@ pub fn drive(a: &Args) {
         let cfg = Cfg {
             base,
             ndots,
-            dtags: (0..nd).map(|_| Tag { k: if rng.random_bool(0.5) { Some(rand_str(&mut rng, hostile)) } else { None }, v: rand_str(&mut rng, hostile) }).collect(),
+            dtags: {
+                // keys are sometimes repeated on purpose: every configured tag must be carried
+                let mut v: Vec<Tag> = vec![];
+                for _ in 0..nd {
+                    let k = if rng.random_bool(0.5) {
+                        let reuse = v.iter().filter_map(|t: &Tag| t.k.clone()).next();
+                        Some(if rng.random_bool(0.35) && reuse.is_some() { reuse.unwrap() } else { rand_str(&mut rng, hostile) })
+                    } else {
+                        None
+                    };
+                    v.push(Tag { k, v: rand_str(&mut rng, hostile) });
+                }
+                v
+            },
             dcid: if rng.random_bool(0.4) { Some(rand_str(&mut rng, hostile)) } else { None },
             handler: rng.random_bool(0.8),
         };
@@ -843,14 +884,19 @@ pub fn drive(a: &Args) {
                 key: { let mut k = rand_str(&mut rng, hostile); if !hostile && k.is_empty() { k.push('k'); } k },
                 val,
                 rate: if !plain && !hostile && rng.random_bool(0.3) { Some(rand_f64(&mut rng, true)) } else { None },
-                tags: (0..nt).map(|_| Tag { k: if rng.random_bool(0.6) { Some(rand_str(&mut rng, hostile)) } else { None }, v: rand_str(&mut rng, hostile) }).collect(),
+                tags: (0..nt).map(|_| {
+                    // sometimes the key of a default tag or of an earlier call tag is used again
+                    let dk = cfg.dtags.iter().filter_map(|t| t.k.clone()).next();
+                    let k = if rng.random_bool(0.6) { Some(if rng.random_bool(0.3) && dk.is_some() { dk.unwrap() } else { rand_str(&mut rng, hostile) }) } else { None };
+                    Tag { k, v: rand_str(&mut rng, hostile) }
+                }).collect(),
                 cid: if !plain && rng.random_bool(0.3) { Some(rand_str(&mut rng, hostile)) } else { None },
                 ts: if !plain && rng.random_bool(0.3) { Some(rand_u64(&mut rng)) } else { None },
                 order: rng.random(),
                 clean: !hostile,
             };
             if rng.random_bool(prefuse) {
-                let k = [io::ErrorKind::ConnectionRefused, io::ErrorKind::WouldBlock, io::ErrorKind::Other, io::ErrorKind::BrokenPipe][rng.random_range(0..4)];
+                let k = ALL_KINDS[rng.random_range(0..ALL_KINDS.len())].1;
                 sink.0.lock().unwrap().script.push_back(Some(k));
             } else {
                 sink.0.lock().unwrap().script.push_back(None);
